@@ -487,32 +487,6 @@ def fold_like_sem(t, base):
     return isinstance(t, tuple) and t[0] == "bin" and t[1].startswith("Add") and ((t[2] == base and t[3] == ("int", 1)) or (t[3] == base and t[2] == ("int", 1)))
 
 
-def _sem_skeleton(ctx, facts, b):
-    """Outcomes of a body with the semantic calls made on the way (helpers looked into, all ways of loops followed),
-    shared / exclusive names unified."""
-    ev, ends = Q.sem(ctx, facts, b)
-
-    def names_of(events, out):
-        for x in events:
-            if x[0] == "loop":
-                for it in x[1].iters:
-                    names_of(it.path.events, out)
-                continue
-            if x[0] != "call":
-                continue
-            n = x[2].name or "?"
-            for a_, b_ in W.NORMALISE:
-                if n == a_:
-                    n = b_
-                    break
-            if n in W.SEMANTIC_CALLS and n not in ("deref", "deref_mut", "clone", "cast*", "index", "index_mut", "get*"):
-                out.append(n)
-        return out
-
-    rows = set()
-    for e in ends:
-        rows.add((e.kind, e.ret[2] if e.ret and e.ret[0] == "agg" else None, tuple(sorted(set(names_of(e.path.events, []))))))
-    return sorted(rows, key=str)
 
 
 def sibling(ctx, report, facts, config, rule="C17.SIBLING"):
